@@ -157,6 +157,19 @@ def check_aligned(ctx, got, spec, index, method, intraday, what, mon_val='values
         ctx.fail(mon_val, '%s: %d columns came back, had %d' % (what, len(gcols), len(cols)))
         return False
     mon = 'asof_fill' if method else mon_val
+    src_cols = [[float('nan') if v is None else v for v in c] for c in spec.get('all_cols', spec['cols'])]       # all columns the frame came with (before column alignment)
+    partial = method and len(src_cols) > 1 and any(len({isn(c[i]) for c in src_cols}) > 1 for i in range(len(times)))
+    if partial:
+        # a frame with rows observed in only some columns, under a fill method: what a lacked timestamp takes from such a row is not settled by the statement;
+        # what is: at a timestamp the frame itself has, every observed cell keeps exactly its value
+        pos = {a: i for i, a in enumerate(times)}
+        for c, g in zip(cols, gcols):
+            ctx.monitors[mon_val] += 1
+            bad = [(t, g[j], c[pos[t]]) for j, t in enumerate(index) if t in pos and not isn(c[pos[t]]) and not (j < len(g) and g[j] == c[pos[t]])]
+            if len(g) != len(index) or bad:
+                ctx.fail(mon_val, '%s (method=%r): an observed cell changed at a timestamp the frame has: %s (returned, original); obs %s at %s' % (what, method, bad[:3], c, times))
+                return False
+        return True
     for c, g in zip(cols, gcols):
         exp = model_col(times, c, index, method)
         ctx.monitors[mon] += 1
@@ -251,7 +264,7 @@ def run_sync(case, ctx):
             if not isinstance(got, pd.DataFrame) or sorted(got.columns) != colspec:
                 ctx.fail('column_alignment', '%s: columns %s, common column set %s' % (path, list(getattr(got, 'columns', [])), colspec))
                 return
-            sub = dict(spec, series=False, names=colspec, cols=[spec['cols'][spec['names'].index(c)] if c in spec['names'] else [None] * len(spec['ts']) for c in colspec])
+            sub = dict(spec, series=False, names=colspec, all_cols=spec['cols'], cols=[spec['cols'][spec['names'].index(c)] if c in spec['names'] else [None] * len(spec['ts']) for c in colspec])
             got2 = got[colspec]
             if not check_aligned(ctx, got2, sub, index, method, intraday, '%s %s' % (api, path)):
                 return
@@ -295,6 +308,17 @@ def run_presync(case, ctx):
     def probe(a, b=None, c=None):
         seen.append((a, b, c))
         return a
+    if case.get('variadic') and not case['kwargs'] and args:
+        # the decorated function takes its timeseries through a catch-all: they are arguments like any other
+        if case['variadic'] == 'all':
+            def probe(*legs):
+                seen.append(tuple(legs) + (None,) * (3 - len(legs)))
+                return legs[0]
+        else:
+            def probe(first, *others):
+                seen.append((first,) + tuple(others) + (None,) * (2 - len(others)))
+                return first
+        ctx.cls('presync:variadic_function')
     form = case.get('form', 'ctor')
     call_kw = {}
     if form == 'ctor':
@@ -513,11 +537,13 @@ def gen_case(rng):
             if rng.random() < 0.5:      # exactly one timeseries among the arguments
                 c_['args'] = [gen_ts(rng, ids, False, True)]
                 c_['kwargs'] = {}
+        if not c_['kwargs'] and rng.random() < 0.5 and c_['form'] != 'call_kw':
+            c_['variadic'] = rng.choice(['all', 'rest'])
         return c_
     multi = rng.random() < 0.35
     api = rng.choice(['df_sync', 'df_reindex']) if not multi else 'df_sync'
     # exact int64 columns beyond 2**53 only where alignment introduces no NaN (inner join, no fill): pandas itself upcasts otherwise
-    x = gen_container(rng, ids, 0, multi, method is not None, intcols_ok=(policy == 'ij' and method is None))
+    x = gen_container(rng, ids, 0, multi, method is not None and rng.random() < 0.7, intcols_ok=(policy == 'ij' and method is None))
     if rng.random() < 0.12:
         # every timeseries on the very same index object (built on one calendar)
         tss = flat_ts_terms(x, [])
